@@ -301,11 +301,24 @@ def build_instr(d, addr=0):
     return cls(**kw)
 
 
+_INSTALLS = [0]
+
+
 def install_program(sim, instrs, base=0):
-    """write directly constructed instructions at consecutive addresses from `base`."""
+    """write directly constructed instructions at consecutive addresses from `base`.  In every third program equal
+    instructions are ONE object stored at several addresses (what `write_instructions([ADDI(...)] * 3)` gives a caller):
+    an instruction is what it says, not which object says it."""
     im = sim.state.instruction_memory
+    _INSTALLS[0] += 1
+    shared = {} if _INSTALLS[0] % 3 == 0 else None
     for i, d in enumerate(instrs):
-        im.write_instruction(base + 4 * i, build_instr(d, base + 4 * i))
+        if shared is not None and d["m"] != "jal":
+            key = repr(sorted(d.items()))
+            if key not in shared:
+                shared[key] = build_instr(d, base + 4 * i)
+            im.write_instruction(base + 4 * i, shared[key])
+        else:
+            im.write_instruction(base + 4 * i, build_instr(d, base + 4 * i))
 
 
 def set_regs(sim, regs):
